@@ -139,6 +139,44 @@ def F7():
                 f'conflicting multi-package call raised={raised} yet left wpkga registered: {left!r}')
 
 
+def F7b():
+    from beartype import BeartypeConf
+    from beartype.claw import beartype_all, beartype_packages
+    from beartype.claw._clawstate import claw_state
+    from beartype.roar import BeartypeClawHookException
+    claw_state.reinit()
+    beartype_packages(('wpkga',), conf=BeartypeConf(is_debug=False))
+    r1 = r2 = False
+    try:
+        beartype_packages(('wpkga',), conf=BeartypeConf(is_color=False, claw_skip_package_names=('wskip1',)))
+    except BeartypeClawHookException:
+        r1 = True
+    left1 = 'wskip1' in claw_state.packages_trie_blacklist
+    try:
+        beartype_all(conf=BeartypeConf(is_color=True))
+        beartype_all(conf=BeartypeConf(is_color=False, claw_skip_package_names=('wskip2',)))
+    except BeartypeClawHookException:
+        r2 = True
+    left2 = 'wskip2' in claw_state.packages_trie_blacklist
+    claw_state.reinit()
+    return _say('F7b', r1 and left1 and r2 and left2,
+                f'conflicting beartype_packages()/beartype_all() calls raised ({r1}, {r2}) yet their skip '
+                f'lists stayed registered ({left1}, {left2})')
+
+
+def F8():
+    from beartype.door import is_bearable
+    h = int
+    for _ in range(100):
+        h = list[h]
+    try:
+        is_bearable([], h)
+        name = 'no exception'
+    except Exception as e:
+        name = type(e).__name__
+    return _say('F8', name.startswith('_'), f'is_bearable([], <list nested 100 deep>) raised {name}')
+
+
 def F9_F12():
     from beartype import BeartypeConf
     from beartype.roar import BeartypeConfParamException
@@ -211,6 +249,10 @@ def F14():
     t = TypeHint(Literal[1, 2])
     ok_c = _say('F14c', len(t) == 0 and len(t.args) == 2,
                 f'TypeHint(Literal[1, 2]): len={len(t)}, list={list(t)}, args={t.args}')
+    from typing import Callable, TypeVar
+    tv, tc = TypeHint(TypeVar('T', int, str)), TypeHint(Callable[[], int])
+    ok_c = _say('F14c', len(tv) != len(tv.args) and len(tc) != len(tc.args),
+                f'TypeVar: len={len(tv)} args={tv.args}; Callable: len={len(tc)} args={tc.args}') and ok_c
     return ok_a and ok_b and ok_c
 
 
@@ -345,7 +387,7 @@ def F10():
 
 ALL = {
     'F1': F1, 'F2': F2, 'F3': F3, 'F4': F4, 'F5': F5_F6, 'F6': F5_F6, 'F7': F7,
-    'F8': F1,  # F8 is the exception class observed in F1
+    'F7b': F7b, 'F8': F8,
     'F9': F9_F12, 'F10': F10, 'F11': F11, 'F12a': F9_F12, 'F12b': F9_F12,
     'F13': F13, 'F16': F16, 'F14a': F14, 'F14b': F14, 'F14c': F14, 'F15a': F15, 'F15b': F15,
 }
